@@ -82,7 +82,7 @@ def run(F, R, tier):
             w = L.parse_spec(want)
             if w[0] == "bytes":
                 # (f) address setters parse the text with the address type's from_str and store the whole value
-                txt = H.render(H.normal(F, H.body_of(g)))
+                txt = H.render(H.normal(F, H.body_of(g), keep=("from_str",)))
                 ok = "Address::from_str(" in txt and "Object::Str" in str(si["kinds"]) or ("Str" in si["kinds"] and "from_str(" in txt)
                 R.ob("address-setter", key, ok and st["cast"] is None, "parses the text with from_str and stores the address; kinds %s" % si["kinds"], F.loc(g))
                 continue
